@@ -749,7 +749,12 @@ func (p *parser) parseField(node *node32) (field *Field, err error) {
 				f.ReservedComments = reservedComments
 			}
 		case ruleFieldId:
-			i, _ := strconv.ParseInt(p.pegText(node), 10, 32)
+			// an id is an IntConstant: decimal, or 0x / 0o prefixed
+			text := p.pegText(node)
+			i, err := strconv.ParseInt(text, 10, 32)
+			if err != nil {
+				i, _ = strconv.ParseInt(text, 0, 32)
+			}
 			f.ID = int32(i)
 		case ruleFieldReq:
 			require := p.pegText(node)
